@@ -789,6 +789,98 @@ def check_http_decode(ctx):
 
 
 # --------------------------------------------------------------------------------------------
+# C09, two requests alive at the same time (driver option peer=): each callback gets its own response
+def strip_peer(case):
+    return " ".join(t for t in case.split() if not t.startswith("peer="))
+
+
+def check_http_two_requests(ctx):
+    sub = "http.two_requests"
+    exe, mexe = _build(ctx, sub)
+    if not exe:
+        return
+    r = ctx.rng
+    rp = replay_cases(ctx, sub)
+    cases = []
+    if rp is not None:
+        cases = rp
+    else:
+        n = ctx.n(250, 6000)
+        gens = [gen_wellformed(ctx, r) for _ in range(2 * n)]
+        rendered = run_model(mexe, [g[0] for g in gens])
+        streams = []
+        for g, line in zip(gens, rendered):
+            m = re.match(r"ok 1 (\S+)( cb=\S+)$", line)
+            if m and len(m.group(1)) < 40000:
+                streams.append((g, bytes.fromhex(m.group(1)) if m.group(1) != "-" else b""))
+        for i in range(0, len(streams) - 1, 2):
+            (ga, sa), (gb, sb) = streams[i], streams[i + 1]
+            if gb[2]:               # the second request is a GET
+                if ga[2]:
+                    continue
+                (ga, sa), (gb, sb) = (gb, sb), (ga, sa)
+            if r.random() < 0.5 and len(sa) < len(sb) and not ga[2] and not gb[2]:
+                (ga, sa), (gb, sb) = (gb, sb), (ga, sa)     # the interrupted response is often the longer one
+            # the first response arrives in pieces: often cut inside its (last) header block, so that the
+            # second response arrives while the first one's header block is unterminated
+            k = r.randrange(4)
+            if k == 0 or len(sa) < 2:
+                segs = seg_choice(ctx, r, sa, "c09two")
+            else:
+                cuts = []
+                he = sa.find(CRLF + CRLF)
+                hi = max(1, min(len(sa) - 1, (he + 3) if he >= 0 else len(sa) - 1))
+                cuts.append(r.choice([hi, hi, max(1, hi - 1), max(1, hi - 3), r.randrange(1, hi + 1), r.randrange(1, len(sa))]))
+                if r.random() < 0.4:
+                    cuts.append(r.randrange(1, len(sa)))
+                segs = seg_at(sorted(set(cuts)))
+            nseg = 1 if segs in ("-",) or segs.startswith("r") else len(segs.split(","))
+            j = r.choice([1, 1, 1, 2, r.randrange(0, nseg + 2)])
+            la, lb = r.choice([ga[1], ga[1] + 1, SIZE_MAX]), r.choice([gb[1], gb[1] + 1, SIZE_MAX])
+            ending = "e" if ga[3] == "close" else r.choice("eers")
+            cases.append(case_line(sa, la, b"HEAD" if ga[2] else b"GET", segs, ending, opts="peer=%d:%x:%s" % (j, lb, hx(sb))))
+            ctx.count("c09two.cases")
+        cases += corpus_cases("c09two.txt")
+    if not cases:
+        return
+    solo_a = [strip_peer(c) for c in cases]
+    solo_b = []
+    for c in cases:
+        o = [t for t in c.split() if t.startswith("peer=")][0][5:].split(":")
+        solo_b.append("http %s %s - - %s %s e - %s" % (hx(b"GET"), hx(b"/b"), c.split()[5], o[1], o[2]))
+    sem, health, st = run_impl(exe, cases)
+    model = run_model(mexe, solo_a + solo_b)
+    ma, mb = model[:len(cases)], model[len(cases):]
+    san = first_sanitizer_line(st)
+    nbad = 0
+    for i, c in enumerate(cases):
+        problems = []
+        hp = health_problem(health[i])
+        if hp:
+            problems.append(hp + ((" [" + san + "]") if san else ""))
+        a, sep, b = sem[i].partition(" peer: ")
+        if not sep:
+            if not hp:
+                problems.append("no result for the second request")
+        else:
+            if a != ma[i]:
+                problems.append("FIRST request (its response arrives in pieces, the other one's in between): got %s, alone it gives %s" % (a[-300:], ma[i][-300:]))
+            if b != mb[i]:
+                problems.append("SECOND request (GET /b on its own connection, whole response then EOF): got %s, alone it gives %s" % (b[-300:], mb[i][-300:]))
+        if problems:
+            nbad += 1
+            if nbad <= 4:
+                ctx.fail(sub, "property", c, "; ".join(problems)[:900], property_fails=True)
+    ctx.count(sub + ".property-failures", nbad)
+    ctx.record(sub, cases, set(zip(cases, sem)),
+               "two http_request()s alive at the same time on two connections: the first one's (well-formed, spec-rendered) response "
+               "arrives in pieces - usually cut inside its header block - and the second one's complete response arrives in between; "
+               "each request's result (request bytes, the one callback with status / headers / body) must be what the extracted model "
+               "gives for that request alone", samples=[cases[0][:300]])
+
+
+
+# --------------------------------------------------------------------------------------------
 # C08, oversize clause: well-formed responses (HttpSpec.render) with the limit BELOW the body size
 
 def check_http_oversize(ctx):
@@ -1123,5 +1215,5 @@ def check_http_limits(ctx):
                samples=[cases[0][:300]])
 
 
-SUBCHECKS = {"C08": [check_http_safety, check_http_oversize], "C09": [check_http_limits, check_http_decode, check_http_request],
+SUBCHECKS = {"C08": [check_http_safety, check_http_oversize], "C09": [check_http_limits, check_http_decode, check_http_request, check_http_two_requests],
              "C14": [check_http_allocfail, check_https_setup_allocfail]}
